@@ -10,15 +10,36 @@ ACC = {"muts": [("is_inside", "Bool"), ("boundary_count", "Nat")], "ret_ctor": "
 VAL = {"ret_type": "Rat", "accessors": {"len": "{}.length", "is_empty": "{}.isEmpty"}, "mut_types": {"t": "Rat"}}
 
 def tr(body, opts, funcs=None):
-    return rsexpr.translate_fn("fn f() " + body, r"fn f\(\) \{", {"T::zero": "0"}, funcs or {}, [], opts=opts)
+    opts = dict(opts)
+    paths = dict({"T::zero": "0"}, **opts.pop("paths", {}))
+    return rsexpr.translate_fn("fn f() " + body, r"fn f\(\) \{", paths, funcs or {}, [], opts=opts)
+
+ENUM = {"muts": [("self_", "T")], "ret_ctor": "id", "ret_type": "T", "places": {"self": "self_"}, "enum_vars": ["self_"],
+        "variants": {"Self::A": ("T.a", ["on", "left"]), "Self::B": ("T.b", ["on"])}, "field_types": {"on": "Option P", "left": "Option P"},
+        "accessors": {"is_none": "{}.isNone"}}
 
 OK = [
+    ("{ let l = match a { X::P(v) => v, X::Q => return c, }; l }", dict(VAL, paths={"X::P": "X.p", "X::Q": "X.q"})),
+    ("{ if let (Some(x), Some(y)) = (a, b) { *is_inside = x == y; } }", ACC),
+    ("{ match self { Self::B { .. } => {} Self::A { left, .. } => { *left = None; } } }", dict(ENUM, paths={"None": "none"})),
+    ("{ if matches!(a, X::P(_)) { return c; } c }", dict(VAL, paths={"X::P": "X.p"})),
     ("{ if a == b { *is_inside = true; } }", ACC),
     ("{ if v.len() < 2 { return; } if v[1] == c { *boundary_count += 1; } }", ACC),
     ("{ let mut t = T::zero(); for x in xs { t = t + x; } t }", VAL),
     ("{ let mut t = T::zero(); for x in xs { if x == c { return x; } t = t + x; } t }", VAL),
 ]
 BAD = [
+    ("match guard", "{ match a { X::Q if c == c => { return c; } _ => {} } c }", dict(VAL, paths={"X::Q": "X.q"})),
+    ("alternatives binding different names", "{ let l = match a { X::P(v) | X::R(w) => c, X::Q => return c, }; l }",
+     dict(VAL, paths={"X::P": "X.p", "X::Q": "X.q", "X::R": "X.r"})),
+    ("let-match with two value arms", "{ let l = match a { X::P(v) => v, X::Q => c, }; l }", dict(VAL, paths={"X::P": "X.p", "X::Q": "X.q"})),
+    ("struct pattern of an undeclared variant", "{ match self { Self::C { on } => {} } }", ENUM),
+    ("struct pattern missing a field without ..", "{ match self { Self::A { on } => {} Self::B { .. } => {} } }", ENUM),
+    ("panic without a choice", "{ match a { _ => panic!(\"x\") } }", VAL),
+    ("swap of something that is not a mutable variable", "{ std::mem::swap(a, b); }", ACC),
+    ("while without fuel / option_wrap", "{ let mut t = T::zero(); while t < c { t = t + c; } t }", VAL),
+    ("computed index without a choice", "{ if v[a - 1] == c { *boundary_count += 1; } }", ACC),
+    ("closure parameter type without a choice", "{ let f = |a: F| a; c }", VAL),
     ("unguarded Vec index", "{ if v[1] == c { *boundary_count += 1; } }", ACC),
     ("index beyond the guard", "{ if v.len() < 2 { return; } if v[2] == c { *boundary_count += 1; } }", ACC),
     ("guard that falls through", "{ if v.len() < 2 { *is_inside = true; } if v[1] == c { *boundary_count += 1; } }", ACC),
